@@ -231,6 +231,8 @@ def split_double_boundary_edges_triangles(mesh : SurfaceMesh) -> SurfaceMesh:
         with SurfaceSubdivision(mesh) as subdv:
             for f in pb_faces: # Triangulate face with a vertex in the middle
                 subdv.split_face_as_fan(f)
+        mesh.connectivity.clear() # the containers of `mesh` were edited in place
+        mesh.clear_boundary_data()
     return mesh
 
 ### Volume Subdivision ###
